@@ -396,6 +396,37 @@ def one(ctx, i):
     diff = tables_equal(table(d2, COUNT), real)
     if diff:
         ctx.violation('order-dependence', **detail, order2=order2, diff=diff)
+    # a demography that was USED (epochs looked up, one at a time and as a stream) before the remaining events were added:
+    # afterwards it is the demography of all its events
+    if n >= 2:
+        k = 1 + (len(pts) + n) % (n - 1)
+        with C.LogCapture():
+            dg = build_real(pg, case, order[:k], True)
+            for t in pts[:5]:
+                dg.get_epoch(t)
+            list(itertools.islice(dg.epochs, 3))
+            rest = build_real(pg, case, order[k:], True)
+            if k % 2:
+                dg.add_events(list(rest.events))
+            else:
+                for ev in rest.events:
+                    dg.add_event(ev)
+            grown = table(dg, COUNT)
+            looked = [dg.get_epoch(t) for t in pts[:5]]
+        diff = tables_equal(grown, real)
+        if diff:
+            ctx.violation('grown-after-use:epochs', **detail, first_part=order[:k], diff=diff)
+        else:
+            for t, ep in zip(pts[:5], looked):
+                ref = next((e for e in real if e['start'] <= t < e['end']), None)
+                sizes = dict(ep.pop_sizes); mig = {kk: v for kk, v in ep.migration_rates.items() if kk[0] != kk[1]}
+                if ref is not None and (float(ep.start_time) != ref['start'] or any(sizes.get(kk) != v for kk, v in ref['sizes'].items())
+                                        or any(mig.get(kk, 0) != v for kk, v in ref['mig'].items())):
+                    ctx.violation('grown-after-use:get_epoch', **detail, first_part=order[:k], time=t, looked_up_before=True,
+                                  returned_start=float(ep.start_time), returned_sizes=sizes, expected_start=ref['start'],
+                                  expected_sizes=ref['sizes'], expected_rates={str(kk): v for kk, v in ref['mig'].items()})
+                    break
+        ctx.count('grown-after-use')
     # Coalescent completes missing populations
     if rng.random() < 0.5:
         extra = 'zz_new'
